@@ -169,3 +169,18 @@ PROPS['C10'] = dict(
     min_stats={'programs': 25},
     assumptions=['a probe message counts as not handled after 700 ms', 'Subscribe calls are counted by the scripted subscribers'],
 )
+
+PROPS['C01'] = dict(
+    level='model_checking',
+    design=[D('Pipeline', 'MCPipeline_k3.cfg', coverage=True), D('Pipeline', 'MCPipeline_live.cfg'),
+            D('Pipeline', 'MCPipeline_mut_ackfirst.cfg', expect='fail', violates='NoLoss'),
+            D('Pipeline', 'MCPipeline_mut_drop.cfg', expect='fail', violates='NoLoss')],
+    traces={'PipelineTrace': dict(module='PipelineTrace', cfg='PipelineTrace.cfg')},
+    rule='runs = pipelines of 1..4 stages (one Router per stage or all on one Router; optional fan-out stage emitting two outputs, optional fan-in of two source topics) on a real '
+         'GoChannel (buffer 0..2, blocking on/off) with scripted faults {handler error, handler panic, publisher error before / after acceptance, publisher panic} on the k-th call '
+         'of a stage: no fault on all shapes, every single fault on K<=2 (3), pairs of faults (sampled / all), long random fault sequences; non-trivial = a fault was really injected',
+    exhaustive=False,
+    min_stats={'cases': 80, 'faults_injected': 60},
+    assumptions=['the source Publish is logged as accepted before the call (GoChannel accepts it at its linearization point)',
+                 'quiescence = every expected lineage arrived, or 10 s passed'],
+)
